@@ -221,9 +221,20 @@ def emit_cif(atoms: List[dict], null: str = "?", extra_categories: str = "", lab
         if key not in seq:
             counters[a["chain"]] = counters.get(a["chain"], 0) + 1
             seq[key] = counters[a["chain"]]
+    alias = bool(dialect and dialect.get("label_alias"))
+
+    def lab_atom(nm):
+        # label-side names in the remediated / old nomenclature while the author side keeps the names as given
+        if not alias:
+            return nm
+        return {"OP1": "O1P", "OP2": "O2P", "O1P": "OP1", "O2P": "OP2"}.get(nm, nm.replace("'", "*") if "'" in nm else nm)
+
+    def lab_comp(nm):
+        return {"A": "ADE", "C": "CYT", "G": "GUA", "U": "URA"}.get(nm, nm) if alias else nm
+
     for a in atoms:
         vals = [
-            a["record"], str(a["serial"]), a["element"] or null, a["name"], a["altloc"] or null, a["resname"], a["chain"], "1",
+            a["record"], str(a["serial"]), a["element"] or null, lab_atom(a["name"]), a["altloc"] or null, lab_comp(a["resname"]), a["chain"], "1",
             str(seq[(a["chain"], a["resseq"], a["icode"])]), a["icode"] or null,
             f"{a['x']:.3f}", f"{a['y']:.3f}", f"{a['z']:.3f}", (f"{a['occ']:.2f}" if a["occ"] is not None else null), f"{a['bfac']:.2f}",
             (str(a["charge"]) if a["charge"] else null), str(a["resseq"]), a["resname"], a["chain"], a["name"], str(a["model"]),
